@@ -97,8 +97,12 @@ class UpdateReferences:
           found = True
       elif isinstance(elem, gfapy.OrientedLine):
         if elem.line is oldref:
-          if hasattr(oldref, "is_complement") and \
-                            oldref.is_complement(newref):
+          if hasattr(oldref, "_complement_ends") and newref is not None and \
+              oldref._complement_ends(newref) and \
+              not (oldref.from_end == newref.from_end and
+                   oldref.to_end == newref.to_end):
+            # the real link is written in the complement form of the
+            # placeholder (whose overlap may be unspecified)
             elem.orient = gfapy.invert(elem.orient)
           elem.line = newref
           found = True
